@@ -220,6 +220,9 @@ func (h *header) decode(src []byte) (int, error) {
 	total++
 
 	remlen, m := binary.Uvarint(src[total:])
+	if m <= 0 || m > maxFixedHeaderLength-1 {
+		return total, fmt.Errorf("header/Decode: Remaining length is incomplete or longer than %d bytes", maxFixedHeaderLength-1)
+	}
 	total += m
 	h.remlen = int32(remlen)
 
